@@ -384,14 +384,16 @@ impl Op {
             Op::SmtRange(s1, s2) => w::re_range(&s(s1), &s(s2)),
             Op::Str(x) => w::str_to_re(&s(x)),
             Op::Concat(i, j) => w::re_concat(g(i), g(j)),
-            Op::ConcatList(v) => w::re_concat_list(v.iter().map(g)),
+            // the list wrappers get LAZY iterators whose items are produced by other wrapper calls, as in
+            // re_union_list(words.iter().map(|w| str_to_re(w)))
+            Op::ConcatList(v) => w::re_concat_list(v.iter().map(|i| w::re_concat(g(i), w::str_to_re(&s(&[]))))),
             Op::Union(i, j) => w::re_union(g(i), g(j)),
-            Op::UnionList(v) => w::re_union_list(v.iter().map(g)),
+            Op::UnionList(v) => w::re_union_list(v.iter().map(|i| w::re_union(g(i), w::re_none()))),
             Op::Inter(i, j) => w::re_inter(g(i), g(j)),
-            Op::InterList(v) => w::re_inter_list(v.iter().map(g)),
+            Op::InterList(v) => w::re_inter_list(v.iter().map(|i| w::re_inter(g(i), w::re_all()))),
             Op::Comp(i) => w::re_comp(g(i)),
             Op::Diff(i, j) => w::re_diff(g(i), g(j)),
-            Op::DiffList(i, v) => w::re_diff_list(g(i), v.iter().map(g)),
+            Op::DiffList(i, v) => w::re_diff_list(g(i), v.iter().map(|i| w::re_diff(g(i), w::re_none()))),
             Op::Star(i) => w::re_star(g(i)),
             Op::Plus(i) => w::re_plus(g(i)),
             Op::Opt(i) => w::re_opt(g(i)),
@@ -399,17 +401,16 @@ impl Op {
             Op::SmtLoop(i, a, b) | Op::LoopFin(i, a, b) => w::re_loop(g(i), *a, *b),
             Op::LoopInf(i, a) => w::re_concat(w::re_power(g(i), *a), w::re_star(g(i))),
             Op::Wide { n, b1, s1, b2, s2, extra, tree, ord } => {
-                let items: Vec<RegLan> = wide_items(*n, *b1, *s1, *b2, *s2, *extra, *ord)
-                    .into_iter()
-                    .map(|it| match it {
-                        Ok((f, l)) => w::str_to_re(&s(&[f, l])),
-                        Err((x, y)) => w::re_range(&s(&[x]), &s(&[y])),
-                    })
-                    .collect();
+                let lazy = wide_items(*n, *b1, *s1, *b2, *s2, *extra, *ord).into_iter().map(|it| match it {
+                    Ok((f, l)) => w::str_to_re(&s(&[f, l])),
+                    Err((x, y)) => w::re_range(&s(&[x]), &s(&[y])),
+                });
                 if *tree {
+                    let items: Vec<RegLan> = lazy.collect();
                     balanced(&items, &mut |x, y| w::re_union(x, y))
                 } else {
-                    w::re_union_list(items.into_iter())
+                    // the operands are built while the list wrapper consumes its iterator
+                    w::re_union_list(lazy)
                 }
             }
         }
